@@ -119,6 +119,7 @@ type c3Variant struct {
 	Workers, Batch, Buffer, Readers int
 	Files   [][]int // line indices per file
 	Gz      []bool
+	GzMulti []bool
 	Order   []int
 	Stdin   bool
 	LatPm   int
@@ -298,8 +299,10 @@ func c3GenVariant(t *simrt.Tape, sc *c3Scenario, first bool) *c3Variant {
 	}
 	v.Gz = make([]bool, k)
 	z := !v.Stdin && t.WBool(1, 3)
+	v.GzMulti = make([]bool, k)
 	for i := range v.Gz {
 		v.Gz[i] = z && t.WBool(1, 2)
+		v.GzMulti[i] = v.Gz[i] && t.WBool(1, 3)
 	}
 	v.Order = make([]int, k)
 	for i := range v.Order {
@@ -550,7 +553,11 @@ func c3RunVariant(rc *RunCtx, sc *c3Scenario, v *c3Variant) *c3Out {
 		data := b.Bytes()
 		if v.Gz[i] {
 			names[i] += ".gz"
-			data = gz(data)
+			if v.GzMulti != nil && v.GzMulti[i] && len(data) > 1 {
+				data = gzMembers(data, []int{len(data) / 2}) // a two-member gzip file
+			} else {
+				data = gz(data)
+			}
 		}
 		if err := os.WriteFile(names[i], data, 0o644); err != nil {
 			panic(err)
@@ -590,11 +597,20 @@ func c3RunVariant(rc *RunCtx, sc *c3Scenario, v *c3Variant) *c3Out {
 	if v.ScanBuf > 0 {
 		opts.Knobs = map[string]int{"rare/pkg/extractor/batchers.ReadAheadBufferSize": v.ScanBuf}
 	}
+	if rc.Mode == simrt.ModeFree {
+		opts.MapSalt = 0 // leg B: canonical map order, no shared per-site counters
+		opts.FreeLimit = 24 * time.Hour
+	}
 	s := rc.NewSim(opts)
 	plan := &simrt.ReadPlan{ErrAt: -1, Chunk: v.Chunk, LatPermille: v.LatPm, LatMaxMs: v.LatMs}
+	splan := &simrt.ReadPlan{ErrAt: -1, Chunk: v.Chunk, Stall: true, LatPermille: v.LatPm, LatMaxMs: v.LatMs}
+	if rc.Mode == simrt.ModeFree {
+		// readers must not synchronise with each other through the tape
+		plan.Rng, splan.Rng = simrt.NewLocalRand(rc.Tape), simrt.NewLocalRand(rc.Tape)
+	}
 	s.FS.Default = plan
 	if v.Stdin {
-		s.StdinR = &simrt.ScriptReader{Name: "<stdin>", Data: stdin.Bytes(), Plan: &simrt.ReadPlan{ErrAt: -1, Chunk: v.Chunk, Stall: true, LatPermille: v.LatPm, LatMaxMs: v.LatMs}}
+		s.StdinR = &simrt.ScriptReader{Name: "<stdin>", Data: stdin.Bytes(), Plan: splan}
 	}
 	out := &c3Out{V: v, Sim: s}
 	out.Res = runCLI(rc, s, args)
